@@ -675,6 +675,10 @@ func (s *levelsController) subcompact(it y.Iterator, kr keyRange, cd compactDef,
 	// that would affect the snapshot view guarantee provided by transactions.
 	discardTs := s.kv.orc.discardAtOrBelow()
 	vhook.Event("compact.discardTs", discardTs, uint64(cd.thisLevel.level)<<8|uint64(cd.nextLevel.level))
+	if vhook.On {
+		vhook.EventKV("compact.sub", []byte(fmt.Sprintf("worker=%d L%d->L%d top=%v bot=%v hasOverlap=%v discardTs=%d range=[%q,%q)",
+			cd.compactorId, cd.thisLevel.level, cd.nextLevel.level, tablesToString(cd.top), tablesToString(cd.bot), hasOverlap, discardTs, kr.left, kr.right)), nil, 0, 0)
+	}
 
 	// While a vlog GC rewrite is in flight, do not discard any version newer than
 	// the rewrite's start (gcDiscardTs is the DB's max committed version captured
@@ -825,6 +829,9 @@ func (s *levelsController) subcompact(it y.Iterator, kr keyRange, cd compactDef,
 						// If no overlap, we can skip all the versions, by continuing here.
 						numSkips++
 						updateStats(vs)
+						if vhook.On {
+							vhook.EventKV("compact.dropMarker", y.ParseKey(it.Key()), nil, version, uint64(vs.Meta))
+						}
 						continue // Skip adding this key.
 					}
 				}
